@@ -225,7 +225,7 @@ def oracle_c01(dump, max_inputs=8):
             if l in ref and v is not ref[l] and st_name(v) != 'U':
                 return f'evaluate_circuit: gate {l} = {v!r}, semantics say {ref[l]} at {asg}'
         co = c.evaluate_circuit_outputs(dict(asg))
-        if list(co.items()) != [(o, ref[o]) for o in dict.fromkeys(outs)]:
+        if set(co) != set(outs) or any(co[o] is not ref[o] for o in set(outs)):
             return f'evaluate_circuit_outputs = {co}, semantics say {[(o, ref[o]) for o in outs]} at {asg}'
         ev = c.evaluate(list(vec))
         if ev != [ref[o] for o in outs] or any(type(x) is not bool for x in ev):
@@ -236,7 +236,7 @@ def oracle_c01(dump, max_inputs=8):
                 return f'evaluate_at({i}) = {at!r}, semantics say {ref[o]} at {asg}'
         rows.append([ref[o] for o in outs])
     if len(ins) <= 6:
-        tt = c.get_truth_table()
+        tt = [list(r) for r in c.get_truth_table()]
         exp = [[r[j] for r in rows] for j in range(len(outs))]
         if tt != exp:
             return f'get_truth_table = {tt}, semantics say {exp}'
@@ -262,6 +262,9 @@ def oracle_after_edits(dump, max_inputs=6):
     from cirbo.core.circuit import gate as G
 
     def compare(what):
+        from . import wforacle
+        if wforacle.wf_violation(c):
+            return None          # the edit broke the C02 invariant: reported there, evaluation is not judged here
         d = ct.dump_circuit(c)
         ins, outs = list(d['inputs']), list(d['outputs'])
         vecs = [tuple([False] * len(ins)), tuple([True] * len(ins)), tuple(bool(i % 2) for i in range(len(ins))),
@@ -281,7 +284,7 @@ def oracle_after_edits(dump, max_inputs=6):
                             f'current state say {ref[l[0]]}')
         if len(ins) <= 4:
             try:
-                tt = c.get_truth_table()
+                tt = [list(r) for r in c.get_truth_table()]
             except Exception as e:  # noqa: BLE001
                 return f'after {what}: get_truth_table raises {type(e).__name__}'
             exp = [[ref_eval(d, dict(zip(ins, v)))[o] for v in itertools.product([False, True], repeat=len(ins))] for o in outs]
